@@ -103,6 +103,17 @@ def serial(defn):
     return zlib.crc32(_ET.tostring(defn.to_xml_tree()))
 
 
+def same_io_error(e, injected):
+    seen = 0
+    x = e
+    while x is not None and seen < 8:
+        if x is injected:
+            return True
+        x = x.__cause__ or x.__context__
+        seen += 1
+    return isinstance(e, OSError) and isinstance(e, type(injected)) and getattr(e, "errno", None) == getattr(injected, "errno", None)
+
+
 def relen(pkt, data):
     return pkt[:4] + (len(data) - 1).to_bytes(2, "big") + data
 
@@ -383,7 +394,7 @@ def run(ch, render=False):
                             inj = g["sock"].raised
                         if g.get("raw") is not None and g["raw"].raised is not None:
                             inj = g["raw"].raised
-                        if inj is not None and (e is inj or e.__cause__ is inj or e.__context__ is inj):
+                        if inj is not None and same_io_error(e, inj):
                             # the injected I/O error of THIS generator's source came out of it: that generator is over
                             g["state"] = "failed"
                             w.fault("source_fault_" + g["inject"])
@@ -395,7 +406,7 @@ def run(ch, render=False):
         for g in gens:
             try:
                 g["gen"].close()
-            except BaseException:      # noqa: BLE001
+            except Exception:      # noqa: BLE001
                 pass
         for s in socks:
             s.close()
